@@ -85,6 +85,12 @@ def linkAttrLoopA (x : NetA) (a : String) : Option (Nat → Nat → Rat) := link
 def edgeValues (x : NetA) (a : String) : Option (List ((Nat × Nat) × Rat)) :=
   (x.attrs.get a).map fun vs => x.core.graph.zip vs
 
+/-- `average_link_attribute(name)`: `self.link_attribute(name).mean(axis=1)` -/
+def avgLinkAttrA (x : NetA) (a : String) : Option (List Rat) :=
+  (linkAttrLoopA x a).map fun f =>
+    (List.range x.core.N).map fun i =>
+      ((List.range x.core.N).map fun j => f i j).sum / (x.core.N : Rat)
+
 /-! ### histories through the loops -/
 
 def stepL (store : IGraphA → IGraphA) (x : NetA) : OpA → Except Err NetA
